@@ -60,7 +60,7 @@ Proof.
     destruct (nth_error (aq_q c x) k) eqn:En.
     + destruct (ierr c x); inv_some.
       * apply inv_core_eq with (c := c); auto. core.
-      * apply inv_core_eq with (c := c); auto.
+      * apply inv_core_eq with (c := c); auto. apply core_eq_if_ph.
         eapply core_eq_trans; [|apply core_eq_deliver]. core.
     + inv_some. prep; fin; sat I.
   - (* IReturn *) inv_some. prep; fin; sat I.
@@ -84,4 +84,10 @@ Proof.
     all: prep; fin; sat I.
     all: try solve [ match goal with H : nth_error (set_nth _ _ _) _ = Some (Some _) |- _ => apply Hoth in H; destruct H as (? & ? & H); use_slot1 I; intuition congruence end ].
   - (* IClose *) inv_some. prep; fin; sat I.
+Qed.
+
+Lemma inv_drain_ack : forall P c a c', inv P c -> step_drain_ack c a = Some c' -> inv P c'.
+Proof.
+  intros P c a c' I H. apply inv_core_eq with (c := c); auto.
+  unfold step_drain_ack in H. destruct (aq_ph c a); inv_some. core.
 Qed.
